@@ -126,7 +126,10 @@ bytes hash_string_inplace(int alg, const bytes &m, size_t out_off);
 bytes hash_string_reuse(int alg, const bytes &decoy, const bytes &m);
 // through filebuffer64 on a memory file positioned at `pos`, optionally with a 64-byte prefix block
 // decoy: a second filebuffer64 over these bytes is alive while `file` is hashed
-bytes hash_filebuf(int alg, const bytes &file, size_t pos, int refill_units, const bytes *prefix64, const bytes *decoy = nullptr);
+// how: 0 = a seekable stream positioned at `pos` with fseek; 1 = a pipe: the bytes from `pos` on arrive through a stream that
+// cannot seek or tell; 2 = the caller has read the stream to its end before (end-of-file indicator set, no seek since):
+// what is left to hash is the empty message
+bytes hash_filebuf(int alg, const bytes &file, size_t pos, int refill_units, const bytes *prefix64, const bytes *decoy = nullptr, int how = 0);
 // synthetic stream of `len` bytes (byte i = pattern(i)) through a buffer64 subclass, no file involved
 bytes hash_synth(int alg, uint64_t len, uint32_t pat);
 // the same synthetic message materialised in memory and given to the in-memory entry point (len < 2^32)
@@ -148,6 +151,8 @@ struct HmacCall
   int kind, hmode;
   bytes key, file, tag64;
   size_t pos;
+  bool same_stream = false; // the call gets the stream of the previous call as it was left (at its end, end-of-file indicator set, no seek):
+                            // the message it covers is empty
 };
 std::vector<bytes> hmac_seq(const std::vector<HmacCall> &calls, int refill_units); // returns file after writeFileHmac
 
